@@ -22,6 +22,12 @@
           8 the document could not be built (construction panicked)
          10 the history agrees but the document is outside the typing hypotheses of
             C04_get_total (wt_tree: a validator postcondition does not hold)
+         11 a cascaded declaration -- the input `t` every theorem holds constant, shared by all
+            the elements a rule matches -- was modified while values were computed
+         12 the recorded font metrics of a node are not those of a font of the harness
+            (DefaultingSpec.known_font_metrics): the oracle input itself is off
+         13 pr.TextRatioCache: a Get after a sequence of Sets returned something else than the
+            model's two maps (rc_get / rc_set)
           9 the implementation panicked and so does the model (C04_get_total says the
             model does not: the case is outside its hypotheses, e.g. ill-typed) *)
 From Verif Require Export Css.Defaulting Css.DefaultingSpec Css.DefaultingTyping.
@@ -43,8 +49,40 @@ Inductive tab :=
 | TFw (bolder : bool) (k v : Z)
 | TSizes (nb n_inh n_inc n_comp n_init n_units n_fsk n_bw n_bolder n_lighter : N).
 
+(* a cascaded declaration read again after the history differs from the one the tree was
+   built from *)
+Inductive dchange := DChg (n p : N) (before after : casc).
+
+(* operations on a pr.TextRatioCache: Set(key, isCh, f), Get(key, isCh) = (f, ok) *)
+Inductive rop :=
+| RSet (key : string) (ch : bool) (f : Q)
+| RGet (key : string) (ch : bool) (ok : bool) (f : Q).    (* f is 0 when ok is false *)
+
+Fixpoint run_rops (c : rcache) (ops : list rop) : bool :=
+  match ops with
+  | [] => true
+  | RSet k b f :: r => run_rops (rc_set c k b f) r
+  | RGet k b ok f :: r =>
+      match rc_get c k b, ok with
+      | Some a, true => Qeq_bool a f && run_rops c r
+      | None, false => run_rops c r
+      | _, _ => false
+      end
+  end.
+
+Fixpoint first_bad_rop (c : rcache) (ops : list rop) (i : N) : option (N * option Q) :=
+  match ops with
+  | [] => None
+  | RSet k b f :: r => first_bad_rop (rc_set c k b f) r (N.succ i)
+  | RGet k b ok f :: r =>
+      let same := match rc_get c k b, ok with
+                  | Some a, true => Qeq_bool a f | None, false => true | _, _ => false end in
+      if same then first_bad_rop c r (N.succ i) else Some (i, rc_get c k b)
+  end.
+
 Inductive case :=
-| CDoc (t : tree) (ops : list hop)
+| CRatio (ops : list rop)
+| CDoc (t : tree) (ops : list hop) (changed : list dchange)
 | CBuildPanic
 | CTables (l : list tab).
 
@@ -97,15 +135,31 @@ Definition check_tab (c : tab) : bool :=
       && (nbo =? len font_weight_bolder) && (nli =? len font_weight_lighter)
   end.
 
+(* recorded metrics against the documented metrics of the harness's fonts, as float32 *)
+Definition metrics_known_node (nd : node) : bool :=
+  match n_metrics nd with
+  | None => true
+  | Some m => existsb (fun ab => Qeq_bool (m_ex m) (cst f32 (fst ab)) && Qeq_bool (m_ch m) (cst f32 (snd ab)))
+                      known_font_metrics
+  end.
+Definition metrics_known (t : tree) : bool := forallb metrics_known_node t.
+
 Definition check (c : case) : N :=
   match c with
-  | CDoc t ops =>
+  | CDoc t ops chg =>
       if wf_tree t then
-        let k := run_hist t empty_styles ops in
-        if (k =? 0) && negb (wt_tree t) then 10 else k
+        match chg with
+        | _ :: _ => 11
+        | [] =>
+          let k := run_hist t empty_styles ops in
+          if negb (k =? 0) then k
+          else if negb (metrics_known t) then 12
+          else if negb (wt_tree t) then 10 else 0
+        end
       else 7
   | CBuildPanic => 8
   | CTables l => if forallb check_tab l then 0 else 5
+  | CRatio ops => if run_rops rc_empty ops then 0 else 13
   end.
 
 (* model observable, for replays: the first operation of the history on which the
@@ -116,6 +170,9 @@ Inductive mout :=
 | MTab (p : N) (name : string) (inh inc : bool) (computer : string) (init : option value)
 | MTabBad (runtime : tab) (generated : mout)
 | MSizes (l : list N)
+| MChanged (l : list dchange)                 (* code 11 *)
+| MMetrics (n : N) (m : option metrics)       (* code 12: first node with unknown metrics *)
+| MRatio (i : N) (model : option Q)           (* code 13: index of the Get, what the model's cache holds *)
 | MQ (q : Q) | MZ (z : Z) | MNone.
 
 Fixpoint first_bad (t : tree) (st : styles) (ops : list hop) (i : N) : mout :=
@@ -153,12 +210,25 @@ Definition tab_out (c : tab) : mout :=
 (* for a table case: the generated (source) view of the first entry that differs *)
 Definition model_out (c : case) : mout :=
   match c with
-  | CDoc t ops => first_bad t empty_styles ops 0
+  | CDoc t ops chg =>
+      match chg with
+      | _ :: _ => MChanged chg
+      | [] =>
+        match first_bad t empty_styles ops 0 with
+        | MAgree =>
+            match find (fun ind => negb (metrics_known_node (snd ind))) (combine (map N.of_nat (seq 0 (List.length t))) t) with
+            | Some (i, nd) => MMetrics i (n_metrics nd)
+            | None => MAgree
+            end
+        | x => x
+        end
+      end
   | CBuildPanic => MNone
   | CTables l => match find (fun e => negb (check_tab e)) l with
                  | Some e => MTabBad e (tab_out e)
                  | None => MAgree
                  end
+  | CRatio ops => match first_bad_rop rc_empty ops 0 with Some (i, m) => MRatio i m | None => MAgree end
   end.
 
 (* ------------------------------------------------------------------ table audit
